@@ -8,7 +8,9 @@ from checks import views, arrays
 from checks.c04 import consts as aconsts
 
 MODES = [("assert", []), ("ndebug", ["-DNDEBUG"]), ("disabled", ["-DBOOST_MULTI_ASSERT_DISABLE"])]
-BAD_KINDS = ["index", "deep_index", "call_first", "call_last", "assign_longer", "assign_shorter"]   # slicing out of range is not among the stops the property promises (the 1-D sliced has no assertion)
+ASSIGN_KINDS = ["assign_%s_%s_%s" % (m, src, dst) for m in ("longer", "shorter") for src in ("array", "view", "rview", "crview", "oview") for dst in ("lv", "rv")]
+SWAPPED_KINDS = ["assign_swapped_%s_%s" % (src, dst) for src in ("array", "view", "rview", "crview", "oview") for dst in ("lv", "rv")]
+BAD_KINDS = ["index", "deep_index", "call_first", "call_last"] + ASSIGN_KINDS + SWAPPED_KINDS   # slicing out of range is not among the stops the property promises (the 1-D sliced has no assertion)
 
 
 def strip(o):
@@ -78,7 +80,7 @@ def run(tier):
     na = three_way_arrays(rep, wd, alines, aexps, akey)
     # ---- R3: out-of-domain steps must be stopped by a library assertion (assertion-enabled build)
     kc = dict(vc)
-    kc.update({"BadKinds": set(BAD_KINDS), "MaxDepth": 2, "MaxExt": 3, "OpNames": set(o for o in views.ALL_OPS if o != "broadcast")})
+    kc.update({"BadKinds": set(BAD_KINDS), "AssignKinds": set(ASSIGN_KINDS), "SwappedKinds": set(SWAPPED_KINDS), "MaxDepth": 2, "MaxExt": 3, "OpNames": set(o for o in views.ALL_OPS if o != "broadcast")})
     cfg = os.path.join(wd, "c20_contracts.cfg")
     vlib.write_cfg(cfg, spec="KSpec", constants=kc, invariants=["KOutcomeOK", "InBounds"], view="KVW", constraints=["KEmitC"])
     kres = vlib.run_tlc("Contracts", cfg, "c20_contracts")
